@@ -30,6 +30,33 @@ def parseTRn (s : String) : Option TRn :=
 def fmtTokens (ts : List (List Nat)) : String :=
   fmtList (fun t => if t.isEmpty then "e" else fmtHex t) ts ";"
 
+/-- `mmap <hex field> <types>` -> `ok main=<hex title>:<tt>:<size> all=<...>` | `err`   (SV.Tok.convertTypes);
+    types = `,`-separated `<hex title or ->:<k|t|p|x|o>:<size>`
+    `index <maxTokenSize> <cs> <partial> <fields>` -> `ok <name>=<value>;...`   (SV.Tok.indexField per field, in order);
+    fields = `+`-separated `<hex key>|<types as above, titles final>|<nil or trunes>` -/
+def parseTT (s : String) : Option TT :=
+  if s = "k" then some .keyword else if s = "t" then some .text else if s = "p" then some .path
+  else if s = "x" then some .exists else if s = "o" then some .other else none
+
+def fmtTT : TT → String
+  | .keyword => "k" | .text => "t" | .path => "p" | .exists => "x" | .other => "o"
+
+def parseTypeIn (s : String) : Option TypeIn :=
+  match s.splitOn ":" with
+  | [t, k, n] => do pure ⟨(← hex? t), (← parseTT k), (← n.toNat?)⟩
+  | _ => none
+
+def fmtMType (m : MType) : String := fmtHex m.title ++ ":" ++ fmtTT m.tt ++ ":" ++ toString m.maxSize
+
+def parseField (s : String) : Option (List Nat × List MType × Option (List TRn)) :=
+  match s.splitOn "|" with
+  | [k, ts, v] => do
+    let k ← hex? k
+    let ts ← (splitList ts).mapM fun (x : String) => (parseTypeIn x).map fun t => (⟨t.title, t.tt, t.size⟩ : MType)
+    let v ← (if v = "nil" then some none else ((splitList v ".").mapM parseTRn).map some)
+    pure (k, ts, v)
+  | _ => none
+
 def step (line : String) : String :=
   match fields line with
   | ["tok", kind, mts, cs, part, mfl, fmax, rs] =>
@@ -41,6 +68,20 @@ def step (line : String) : String :=
       else if kind = "p" then "ok " ++ fmtTokens (pathTokens c fmax rs)
       else "bad-op"
     | _, _, _, _, _, _ => "bad-op"
+  | ["mmap", fn, ts] =>
+    match hex? fn, (splitList ts).mapM parseTypeIn with
+    | some fn, some ts =>
+      match convertTypes fn ts with
+      | some (m, all) => s!"ok main={fmtMType m} all={fmtList fmtMType all}"
+      | none => "err"
+    | _, _ => "bad-op"
+  | ["index", mts, cs, part, fs] =>
+    match mts.toNat?, bool? cs, bool? part, (splitList fs "+").mapM parseField with
+    | some mts, some cs, some part, some fs =>
+      let c : TokCfg := ⟨mts, cs, part, SV.Extracted.C11.maxTextFieldValueLength, SV.Extracted.C11.csNormalizesInvalid⟩
+      let toks := fs.flatMap fun f => indexField c f.2.1 f.1 f.2.2
+      "ok " ++ fmtList (fun (t : List Nat × List Nat) => fmtHex t.1 ++ "=" ++ (if t.2.isEmpty then "e" else fmtHex t.2)) toks ";"
+    | _, _, _, _ => "bad-op"
   | ["lower", rs] =>
     match (splitList rs ".").mapM parseTRn with
     | some rs => "ok " ++ fmtHex (lowerTok rs)
